@@ -31,10 +31,10 @@ GEN_PREFIXES = []
 THEOREMS = {
     "Proofs.C20": ["VerifModel.C20." + t for t in [
         "C20_accumulate", "C20_accumulate_too_long", "C20_accumulate_missing_iff", "C20_cumulative",
-        "C20_accumulate_w1_partial", "C20_accumulate_w1_ignore_witness", "C20_accumulate_axis",
+        "C20_accumulate_w1", "C20_accumulate_axis",
         "C20_cdf", "C20_cdf_bounds", "C20_cdf_mono", "C20_cdf_missing",
         "C20_quantile", "C20_quantile_single", "C20_quantile_def",
-        "C20_pit_partial", "C20_pit_missing_obs_witness",
+        "C20_pit", "C20_pit_missing_obs",
         "C20_expand", "C20_expand_nowhere_else", "C20_expand_times", "C20_preserve"]],
 }
 TRUSTED_BASE = [
@@ -64,7 +64,8 @@ ASSUMPTIONS = [
 RULE = ("seeded random files: 1-4 times x 1-6 lead times x 1-3 locations, values on a 1/4 grid in [-2,8], missing "
         "cells/series/fields, 1-6 members (with ties and missing members); NetCDF (NaN or masked) and text (unixtime "
         "or date+hour columns, rows shuffled); accumulate: every -w in 1..len+1 and none, both axes, -i; plus files "
-        "large enough for SciPy's FFT path (48 lead times x 10 locations, -w 24); ens2prob: thresholds "
+        "large enough for SciPy's auto method to pick FFT (48 lead times x 10 locations, -w 24; the scripts now force "
+        "the direct method); ens2prob: thresholds "
         "below/inside/equal-to-member/above, levels incl. 0 and 1, -p; expandverif: -i hour lists (or default), "
         "-lt lists partly outside the input, unsorted and overlapping times; an op is non-trivial if the transformed "
         "field holds a finite number")
@@ -452,7 +453,8 @@ def gen_ops(tier, rng):
         s = xvec(_values(rng, n, rng.choice([0, 0.2, 0.5])))
         for w in ["-"] + [str(x) for x in range(1, n + 2)]:
             yield "acc.series", "accumulate %s %d %s" % (w, rng.randint(0, 1), s)
-    # files large enough for scipy.signal.convolve to pick its FFT method
+    # files large enough for scipy.signal.convolve(method='auto') to pick its FFT method (regression: the
+    # scripts force method='direct'; FFT would smear one NaN over the whole series)
     for i in range(3 if quick else 12):
         T, L, S = rng.choice([(1, 48, 10), (2, 48, 6), (10, 48, 1)])
         w = 24
@@ -620,11 +622,6 @@ def _judge_acc(a, f, r):
                         sig = {"script": "accumulate", "kind": "value"}
                         if want is not None and math.isnan(got[t]):
                             sig["kind"] = "spurious-missing"
-                            if w == 1 and ign:
-                                sig["kind"] = "w1-ignore-missing"
-                            elif any(v is None for v in x) and not ign and w is not None and w > 1:
-                                sig["series_has_missing"] = True
-                                sig["large_file"] = T * L * S >= 400
                         return (sig, "accumulate -x %s -w %s%s: %s is %s, documented window sum of %s is %s" % (
                             axis, a[2], " -i" if ign else "", where, xr(got[t]),
                             [xr(v) if v is not None else "nan" for v in x],
@@ -704,10 +701,7 @@ def _judge_e2p(a, f, r):
                     o = _frac(f.obs[t, l, s]) if f.obs is not None else None
                     want = None if o is None else Fraction(sum(1 for v in val if v < o), M)
                     if not _same(got, want):
-                        sig = {"script": "ens2prob", "kind": "pit-value"}
-                        if o is None and not math.isnan(got):
-                            sig["kind"] = "pit-missing-obs"
-                        return (sig, "%s obs %s: pit = %s, documented %s" % (
+                        return ({"script": "ens2prob", "kind": "pit-value"}, "%s obs %s: pit = %s, documented %s" % (
                             cell, "nan" if o is None else xr(o), xr(got), "missing" if want is None else xr(want)))
     return None
 
@@ -802,19 +796,6 @@ def _reply_eq(x, y):
     return True
 
 
-def _fft_regime(a, f):
-    """accumulate with -w>1 on a file for which scipy.signal.convolve chooses its FFT method"""
-    if a[2] == "-" or int(a[2]) <= 1:
-        return False
-    import scipy.signal
-    w = int(a[2])
-    T, L, S = f.shape
-    if (a[1] == "leadtime" and w > L) or (a[1] == "time" and w > T):
-        return False
-    k = np.ones([1, w, 1]) if a[1] == "leadtime" else np.ones([w, 1, 1])
-    return scipy.signal.choose_conv_method(np.ones(f.shape), k, "valid") == "fft"
-
-
 def _in_domain(op):
     """is the op inside the domain on which the model mirrors the code (else only the oracle speaks)"""
     a = op.split(" ")
@@ -822,48 +803,13 @@ def _in_domain(op):
         nopt = 4 if a[0] == "acc" else 3
         file = a[nopt:nopt + NFILE]
         if file[9] == "none" or file[10] == "none":
-            return False          # the script has no guard for an absent field
-        if a[0] == "acc" and a[3] == "0":
-            f = VF(file)
-            if _fft_regime(a, f) and (np.isnan(f.obs).any() or np.isnan(f.fcst).any()):
-                return False      # FFT convolution smears NaN over the whole series; the model is the direct sum
+            return False          # the script has no guard for an absent field (known finding)
     return True
 
 
-def _mask_field(reply, key, mask):
-    """replace the entries of field `key` selected by `mask` with '?' (cells outside the model's domain)"""
-    out = []
-    for tok in reply.split(" "):
-        if tok.startswith(key + "=") and tok != key + "=none":
-            v = tok[len(key) + 1:].split(",")
-            if len(v) == len(mask):
-                v = ["?" if m else x for x, m in zip(v, mask)]
-            tok = key + "=" + ",".join(v)
-        out.append(tok)
-    return " ".join(out)
-
-
 def cmp(op, impl_out, model_out):
-    """model = code, asserted on the domain of the theorems; the cells of the recorded defects (PIT of a
-    missing observation, -w 1 -i on a missing value) are left to the oracle so that a repaired script is
-    not reported merely because the model mirrors the old behaviour"""
     if not _in_domain(op):
         return True
-    a = op.split(" ")
-    if a[0] == "ens_pit" and a[1] == "nan":
-        return True
-    if a[0] == "accumulate" and a[1] == "1" and a[2] == "1":
-        mask = [t == "nan" for t in a[3].split(",")]
-        return _reply_eq(_mask_field("v=" + impl_out, "v", mask), _mask_field("v=" + model_out, "v", mask))
-    if a[0] == "e2p" and a[3] == "1" and a[4 + 9] != "none" and not impl_out.startswith("E"):
-        mask = [t == "nan" for t in a[4 + 9].split(",")]
-        return _reply_eq(_mask_field(impl_out, "pit", mask), _mask_field(model_out, "pit", mask))
-    if a[0] == "acc" and a[2] == "1" and a[3] == "1" and not impl_out.startswith("E"):
-        x, y = impl_out, model_out
-        for key, col in (("obs", 4 + 9), ("fcst", 4 + 10)):
-            mask = [t == "nan" for t in a[col].split(",")]
-            x, y = _mask_field(x, key, mask), _mask_field(y, key, mask)
-        return _reply_eq(x, y)
     return _reply_eq(impl_out, model_out)
 
 
@@ -890,12 +836,8 @@ def judge(op, impl_out, spec_out):
         if spec_out is None or spec_out.startswith("ERR"):
             return None
         if not _reply_eq("v=" + impl_out, "v=" + spec_out):
-            sig = {"script": script, "kind": k + "-spec"}
-            if k == "ens_pit" and a[1] == "nan":
-                sig["kind"] = "pit-missing-obs"
-            if k == "accumulate" and a[1] == "1" and a[2] == "1":
-                sig["kind"] = "w1-ignore-missing"
-            return (sig, "%s: script gives %s, Spec gives %s" % (op, impl_out, spec_out))
+            return ({"script": script, "kind": k + "-spec"},
+                    "%s: script gives %s, Spec gives %s" % (op, impl_out, spec_out))
         return None
     nopt = {"acc": 4, "win": 3, "e2p": 4, "exp": 3, "t2n": 1}[k]
     f = VF(a[nopt:nopt + NFILE])
